@@ -24,6 +24,47 @@ FIT = [("contracts.packing_fit", "first_fit_online"), ("contracts.packing_fit", 
 COVER = [("contracts.covering", "decreasing_subroutine"), ("contracts.covering", "cover_decreasing"), ("contracts.covering", "twothirds")]
 
 
+def _real_outcome(contract, w):
+    try:
+        return contract.real(w)
+    except Exception as e:
+        return {"raises": type(e).__name__}
+
+
+def replay_and_crosscheck(rep, prop, res, obs):
+    """T2: (a) every counter-model is executed on the real function: the real result must equal the engine's prediction, then the
+    violation is genuine (the goal is false for that result); (b) on every explored path a model of the path condition is executed on the
+    real function and compared with the engine's prediction (soundness cross-check of the Python/numpy model, DESIGN 10)."""
+    from pyvc.concrete import same, unjson
+    from pyvc.report import Ob
+    c = res.contract
+    if c.tier != "T2" or not hasattr(c, "real"):
+        return
+    for ob in obs:
+        if ob.status == REFUTED and isinstance(ob.witness, dict) and ob.witness.get("input"):
+            w = ob.witness["input"]
+            real = _real_outcome(c, w)
+            pred = unjson(w.get("predicted"))
+            ob.witness["real_result"] = repr(real)
+            confirm = getattr(c, "confirm", None)
+            if (confirm(unjson(w), real) if confirm is not None else same(pred, real)):
+                ob.replayed = True
+                ob.detail = f"counter-model replayed on the real function: input {w}, real result {real!r} (= predicted) | " + ob.detail
+            else:
+                ob.status = UNDECIDED
+                ob.detail = f"engine imprecision: counter-model {w} predicts {pred!r} but the real function returns {real!r} | " + ob.detail
+    bad = 0
+    for w in res.xchecks:
+        real = _real_outcome(c, w)
+        if not same(unjson(w.get("predicted")), real):
+            bad += 1
+            rep.add(Ob(id=f"{prop}/T2/{c.fname}/engine-crosscheck", tier="T2", status=UNDECIDED, function=c.target,
+                       detail=f"ENGINE MODEL DISAGREES WITH CPYTHON on {w}: real result {real!r}"))
+            rep.extra["engine_mismatch"] = rep.extra.get("engine_mismatch", 0) + 1
+            break
+    rep.extra["traces_validated_against_impl"] = rep.extra.get("traces_validated_against_impl", 0) + len(res.xchecks) - bad
+
+
 def run_contracts(rep, prop, crefs, level="quick", with_lemmas=False):
     """verify every contract and add the obligations that carry `prop`:
        every invariant / precondition / exception obligation of the function (the proof of any postcondition rests on them) and the
@@ -32,6 +73,7 @@ def run_contracts(rep, prop, crefs, level="quick", with_lemmas=False):
     for cref in crefs:
         res = vc.verify(cref, level)
         obs = vc.to_obs(res, prop)
+        replay_and_crosscheck(rep, prop, res, obs)
         for ob in obs:
             m = _TAG.search(ob.id)
             foreign = m is not None and m.group(1) != prop
